@@ -91,8 +91,24 @@ def opJudgeC09 (j : Json) : Json :=
 
 
 /-- Judge C19: `{"period": s, "obs": {"ok": secs} | {"reject": true} | {"panic": …}}` or `{"outcome": class}`. -/
+def limitsOf (v : Json) : List Limiter.Limit :=
+  (arrOf v).map fun e =>
+    match e with
+    | .arr a => { n := natOf (a.getD 0 .null), period := natOf (a.getD 1 .null) }
+    | _ => { n := 0, period := 0 }
+
+def outcomeName : Spec.C19.StartOutcome → String
+  | .starts => "starts" | .startsAfterLimiterSleep => "starts-after-limiter-sleep" | .rejected => "rejected"
+  | .panicked => "panicked" | .died => "died" | .hung => "hung" | .unknown => "unknown"
+
 def opC19Judge (j : Json) : Json :=
-  if !(isNull (get j "outcome")) then
+  if !(isNull (get j "start_obs")) then
+    let o := get j "start_obs"
+    let so : Spec.C19.StartObs :=
+      { died := bool o "died", panicked := bool o "panicked", rejected := bool o "rejected",
+        loaded := bool o "loaded", late := (arr o "late").toList.map limitsOf, timeoutMs := nat o "timeout_ms" }
+    Json.mkObj [("holds", Spec.C19.startupObsHolds so), ("class", outcomeName (Spec.C19.classify so))]
+  else if !(isNull (get j "outcome")) then
     Json.mkObj [("holds", Spec.C19.startupHolds (Spec.C19.StartOutcome.ofString (str j "outcome")))]
   else
     let o := get j "obs"
